@@ -34,4 +34,4 @@ c01_sync_stops_after_256_entries.diff C01
 c16_monitor_skips_every_101st_event.diff C16
 c09_deployment_filter_capped_at_64_sources.diff C09
 LIST
-} | xargs -P ${SWEEP_JOBS:-4} -L 1 bash -c 'one "$0" "$1" "$2"' | sort
+} | xargs -P ${SWEEP_JOBS:-4} -L 1 bash -c 'one "$0" "$1" "$2"' | tee ${SWEEP_PROGRESS:-/dev/null} | sort
